@@ -10,11 +10,11 @@ def gen(run):
 
 
 fam.make(globals(), "C05", ["C05"], gen, kinds=True)
-COQ_TARGETS = ["theories/Props/C05.vo", "theories/Mp4/LoopProofsExamples.vo", "theories/Mp4/LoopProofsTotalInst.vo"]
+COQ_TARGETS = ["theories/Props/C05.vo", "theories/Props/C05d.vo", "theories/Mp4/LoopProofsExamples.vo", "theories/Mp4/LoopProofsTotalInst.vo"]
 REQUIRES = ["From Coq Require Import List NArith ZArith Bool.", "From Coq.Strings Require Import Byte.",
             "From MS Require Import Base.Bytes Base.Outcome Base.Prog Mp4.Header Mp4.Box Mp4.San Mp4.Spec Props.C05.",
             "Import ListNotations.", "Open Scope N_scope."]
-COQCHK = ["MS.Props.C05"]
+COQCHK = ["MS.Props.C05", "MS.Props.C05d"]
 _PRE = """forall (cfg : config) (lenient : bool) (inp : input) (fuel : nat),
   max_metadata_size cfg < 4294967296 ->
   ilen inp <= U64MAX ->
@@ -42,7 +42,23 @@ THEOREMS = [
   mp4_sanitize cfg true U64MAX' inp fuel <> OutOfFuel ->
   is_ok (mp4_sanitize cfg false U64MAX' inp fuel) = is_ok (mp4_sanitize cfg true U64MAX' inp fuel)"""),
 ]
-TRUSTED = fam.TRUSTED_COMMON + ["axioms: none (Print Assumptions of the three theorems = Closed under the global context)"]
+_DREQ = ["From Coq Require Import List NArith Bool.", "From Coq.Strings Require Import Byte.",
+         "From MS Require Import Base.Bytes Base.Outcome Base.Prog Mp4.Header Mp4.Box Mp4.San Gen.Mp4Dispatch Mp4.SanDispatch Mp4.SanDispatchProofs Props.C05d.",
+         "Import ListNotations.", "Open Scope N_scope."]
+# the top-level dispatch regenerated from the source (Gen/Mp4Dispatch.v, tools/gen_consts.py): Props/C05d.v
+THEOREMS = THEOREMS + [
+    ("C05_dispatch_is_source", """forall (cfg : config) (fuel : nat) (R : reader) (rs : rst R),
+  run R (sanitize_prog cfg fuel) rs = run R (sanitize_prog_arms cfg fuel) rs"""),
+    ("C05_step_dispatch_is_source", """forall (cfg : config) (s : st) (R : reader) (rs : rst R),
+  run R (step cfg s) rs = run R (step_arms cfg s) rs"""),
+    ("C05_dispatch_list", """DISPATCH_SRC = [ANames [t_free; t_skip]; ANames [t_ftyp]; AGuardNoFtyp; ANames [t_mdat]; ANames [t_moov];
+                  ANames [t_meta; t_meco]; AAny]"""),
+]
+REQUIRES_FOR = {"C05_dispatch_is_source": _DREQ, "C05_step_dispatch_is_source": _DREQ, "C05_dispatch_list": _DREQ}
+TRUSTED = fam.TRUSTED_COMMON + ["the arms of the top-level `match header.box_type()` (names per arm, the ftyp guard arm, the catch-all, in source order) are "
+                                "regenerated from mp4san/src/lib.rs on every run (Gen/Mp4Dispatch.v) and the model's step is proved to dispatch by that list "
+                                "(C05_dispatch_is_source)",
+                                "axioms: none (Print Assumptions of the three theorems = Closed under the global context)"]
 ASSUMPTIONS = fam.ASSUMPTIONS_COMMON + [
     "C05 is stated for max_metadata_size < 2^32 (a chunk-offset table of 2^32 bytes or more is refused by the code's u32 arithmetic)",
     "input length <= u64::MAX; the in-memory cursor can seek up to u64::MAX (max_seek = U64MAX'); fuel: the theorem excludes OutOfFuel, "
